@@ -86,6 +86,8 @@ func (s *Service) ModifyHPByRatio(data info.ModifyHPByRatio, isDamage bool) erro
 	// TODO: unsure if there are limits on min and max
 	if attr.HPRatio > 1 {
 		attr.HPRatio = 1.0
+	} else if attr.HPRatio < 0 {
+		attr.HPRatio = 0
 	}
 
 	return s.emitHPChangeEvents(
